@@ -103,7 +103,9 @@ def case_spec(draw, algo=None):
         p["lag"] = lag
     elif algo == "SelectWhere":
         idx = sorted(draw(st.lists(st.integers(0, n - 1), min_size=1, max_size=n, unique=True))) if draw(st.booleans()) else list(range(n))
-        spec["frames"]["sig"] = {"kind": "frame", "dtype": "bool", "dates": [ds[k] for k in idx], "cols": {t: [draw(st.booleans()) for _ in idx] for t in uni}}
+        # a lagged or masked indicator ((data > x).shift(1), a signal undefined before a listing) has missing cells: those are not True
+        cell = st.sampled_from([True, False, None]) if draw(st.integers(0, 2)) == 0 else st.booleans()
+        spec["frames"]["sig"] = {"kind": "frame", "dtype": "bool", "dates": [ds[k] for k in idx], "cols": {t: [draw(cell) for _ in idx] for t in uni}}
         p["frame"] = "sig"
         p["by_name"] = draw(st.booleans())
     elif algo == "SelectRandomly":
@@ -350,7 +352,7 @@ def case_select(ctx, spec):
         fdates = [_ts(d) for d in f["dates"]]
         if now in fdates:
             k = fdates.index(now)
-            on = [t for t in uni if f["cols"][t][k]]
+            on = [t for t in uni if f["cols"][t][k] is True]
             exp = [t for t in on if tradable(row[t], flags)]
             expect_set(exp)
             kept, filtered_out = len(exp), len(uni) - len(exp)
